@@ -5,6 +5,9 @@ K: the text written by `to_smtlib(daggify=False/True)`, `smtlibscript_from_formu
    `toSexp`, `toSexpDag`, `scriptOfFormula`; let names exactly, declarations as a multiset). Multi-command scripts
    (SmtLibScript objects with set-logic, declare-sort/fun/const, 2-4 asserts, push/pop, check-sat; one printer object for all
    commands) are compared command by command with `scriptOfCmds`, which prints every assertion with a fresh name table.
+H: before anything is printed the formula is "used elsewhere" (`use_elsewhere`: stores / selects / equalities over each of
+   its array values are built and simplified, the formula is simplified and substituted): the model is history-free, so any
+   effect of that history on the printed text is a K divergence and, when the meaning changes, an S failure.
 S: independent of the printer model: `chk_print` elaborates the implementation's text with the standard's reading
    (`Spec/SmtlibText.lean: readStd`) in the environment of the formula's own symbols and compares sort and value under sampled
    interpretations; `chk_script` runs the serialised script through `runStd` (declared before use, declared once);
@@ -319,8 +322,88 @@ def unhx(h):
     return wire.unhex(h)
 
 
+def _other_const(mgr, c):
+    """a constant of the same sort as the constant c, different from it (None when there is no easy one)"""
+    try:
+        t = c.get_type()
+        if t.is_bool_type():
+            return mgr.Bool(not c.constant_value())
+        if t.is_int_type():
+            return mgr.Int(c.constant_value() + 1)
+        if t.is_real_type():
+            return mgr.Real(c.constant_value() + 1)
+        if t.is_bv_type():
+            return mgr.BV((c.constant_value() + 1) % (1 << t.width), t.width)
+        if t.is_string_type():
+            return mgr.String(c.constant_value() + "x")
+    except Exception:           # noqa: BLE001
+        pass
+    return None
+
+
+def use_elsewhere(f):
+    """History before printing (deterministic, so that a replay repeats it): the formula and its array values are used
+    by other library operations first - stores / selects / equalities over every array value are built and simplified
+    (existing keys with another value, a key that is not assigned), the formula itself is simplified and substituted.
+    FNodes are immutable: none of this may change what is printed afterwards (the printer model is history-free)."""
+    from pysmt.environment import get_env
+    mgr = get_env().formula_manager
+    seen, stack, avs = set(), [f], []
+    while stack:
+        n = stack.pop()
+        if id(n) in seen:
+            continue
+        seen.add(id(n))
+        if n.node_type() == op.ARRAY_VALUE:
+            avs.append(n)
+        stack.extend(n.args())
+    for av in avs[:6]:
+        try:
+            args = av.args()
+            d, keys, vals = args[0], list(args[1::2]), list(args[2::2])
+            cand = []
+            for k, v in zip(keys[:3], vals[:3]):
+                v2 = _other_const(mgr, v) if v.is_constant() else None
+                if v2 is not None:
+                    cand.append((k, v2))                    # an assigned key with another value
+            base = keys[-1] if keys else None
+            if base is None:
+                it = av.array_value_index_type()
+                base = (mgr.Int(0) if it.is_int_type() else mgr.Real(0) if it.is_real_type() else
+                        mgr.Bool(False) if it.is_bool_type() else mgr.BV(0, it.width) if it.is_bv_type() else
+                        mgr.String("") if it.is_string_type() else None)
+            knew = _other_const(mgr, base) if base is not None and base.is_constant() else None
+            while knew is not None and knew in keys and len(cand) < 8:
+                knew = _other_const(mgr, knew)
+                cand.append((None, None))
+            cand = [c for c in cand if c[0] is not None]
+            v3 = _other_const(mgr, d) if d.is_constant() else None
+            if knew is not None and knew not in keys and v3 is not None:
+                cand.append((knew, v3))                     # a key that is not assigned
+            for k, v in cand:
+                st = mgr.Store(av, k, v)
+                st.simplify()
+                mgr.Select(st, k).simplify()
+                mgr.Equals(st, av).simplify()
+            for k in keys[:2]:
+                mgr.Select(av, k).simplify()
+        except Exception:       # noqa: BLE001 - the history step must never break the check
+            pass
+    try:
+        f.simplify()
+    except Exception:           # noqa: BLE001
+        pass
+    try:
+        fv = sorted(f.get_free_variables(), key=lambda x: x.symbol_name())
+        f.substitute({x: x for x in fv[:3]})
+    except Exception:           # noqa: BLE001
+        pass
+
+
 def print_all(f, with_file=False):
-    """every text the implementation produces for f; exceptions are outcomes"""
+    """every text the implementation produces for f - after the formula has been used elsewhere (`use_elsewhere`);
+    exceptions are outcomes"""
+    use_elsewhere(f)
     out = {}
     for key, dag in (("tree", False), ("dag", True)):
         try:
@@ -519,6 +602,10 @@ def enc_cmd(c):
 
 
 def serialize_script(script, with_file=False):
+    import pysmt.smtlib.commands as smtcmd
+    for c in script.commands:
+        if c.name == smtcmd.ASSERT:
+            use_elsewhere(c.args[0])        # history before printing, repeated identically by a replay
     out = {}
     for key, dag in (("multi_tree", False), ("multi_dag", True)):
         try:
